@@ -42,6 +42,12 @@ CHECKS = {
                      'graph makes the emitted components differ from graph reachability (each reachable file once, nothing unreachable, no file parsed that is '
                      'unreachable), and non-termination shows as bounded-depth divergence; counterexample graphs are replayed on the native binary.',
                 note='trusted: SMI environment models; graphs bounded to 3 files x 2 slots (quick) / 4 x 2 and 3 x 3 (thorough); divergence bound 60 frames'),
+    'C12': dict(engine='E2-smi', cat='model_checking', design='4/C12',
+                technique='symbolic execution of reader + emitter MIR with symbolic HashMap iteration orders, file registration orders and call histories',
+                text='Every HashMap the interpreted code creates iterates in a symbolic permutation (its documented contract); one exploration covers all '
+                     'orders and all outputs must be equal. A second exploration makes the registration order of a 3-file set and the number of read_xml calls on '
+                     'the same FilesToRead symbolic. z3 decides which permutations are feasible; differing outputs are replayed natively (fresh processes / driver).',
+                note='trusted: SMI environment models (HashMap = association list + arbitrary order, BTreeMap = sorted); maps <= 3 entries; hash-seed replays are statistical'),
 }
 
 NA = {
@@ -49,7 +55,7 @@ NA = {
     'C04': 'deserialization and round-trip are executed by yaserde derive expansion and xml-rs at run time (fmt/dyn/heap); CBMC cannot get through it and the MIR interpreter covers zeep, not yaserde',
     'C18': 'Send/Sync are auto-trait facts computed by rustc from the coroutine layout, not properties of executions a bounded symbolic run can falsify',
 }
-PENDING = ['C03', 'C05', 'C07', 'C08', 'C09', 'C10', 'C12', 'C13', 'C14', 'C16', 'C17']
+PENDING = ['C03', 'C05', 'C07', 'C08', 'C09', 'C10', 'C13', 'C14', 'C16', 'C17']
 
 
 def main():
